@@ -324,6 +324,78 @@ theorem validateAllRequiredSigned_consent {pre : List Grant} {signers : List Add
         · exact ih hw1 h p hp'
       · simp at h
 
+theorem associateRequired_wf {pre : List Grant} {signers : List Addr} {mt : MsgType}
+    {ds ds' : List PartyDetails} {a a' : Auth} (hw : AuthWf pre a)
+    (h : associateRequired signers mt a ds = .ok (a', ds')) : AuthWf pre a' := by
+  induction ds generalizing a a' ds' with
+  | nil => simp [associateRequired] at h; rw [← h.1]; exact hw
+  | cons p rest ih =>
+    unfold associateRequired at h
+    split at h
+    · cases hr : associateRequired signers mt a rest with
+      | error e => rw [hr] at h; simp at h
+      | ok r =>
+        obtain ⟨a1, r1⟩ := r
+        rw [hr] at h; simp at h
+        rw [← h.1]; exact ih hw hr
+    · split at h
+      · rename_i a1 g hf
+        have hw1 := (findAuthzGrantee_spec hw hf).1
+        cases hr : associateRequired signers mt a1 rest with
+        | error e => rw [hr] at h; simp at h
+        | ok r =>
+          obtain ⟨a2, r2⟩ := r
+          rw [hr] at h; simp at h
+          rw [← h.1]; exact ih hw1 hr
+      · simp at h
+
+theorem associateRole_wf {pre : List Grant} {signers : List Addr} {mt : MsgType}
+    {ds ds' : List PartyDetails} {a a' : Auth} (hw : AuthWf pre a)
+    (h : associateRole signers mt a ds = .ok (a', ds')) : AuthWf pre a' := by
+  induction ds generalizing a a' ds' with
+  | nil => simp [associateRole] at h
+  | cons p rest ih =>
+    unfold associateRole at h
+    split at h
+    · cases hr : associateRole signers mt a rest with
+      | error e => rw [hr] at h; simp at h
+      | ok r =>
+        obtain ⟨a1, r1⟩ := r
+        rw [hr] at h; simp at h
+        rw [← h.1]; exact ih hw hr
+    · split at h
+      · rename_i a1 g hf
+        simp at h
+        rw [← h.1]; exact (findAuthzGrantee_spec hw hf).1
+      · rename_i a1 hf
+        have hw1 := (findAuthzGrantee_spec hw hf).1
+        cases hr : associateRole signers mt a1 rest with
+        | error e => rw [hr] at h; simp at h
+        | ok r =>
+          obtain ⟨a2, r2⟩ := r
+          rw [hr] at h; simp at h
+          rw [← h.1]; exact ih hw1 hr
+
+/-- the party validation of roll-up scopes only ever consumes grants that were in force -/
+theorem validateAllRequiredPartiesSigned_wf {pre : List Grant} {signers : List Addr} {mt : MsgType}
+    {parties : List Party} {a a' : Auth} {used : List Addr} (hw : AuthWf pre a)
+    (h : validateAllRequiredPartiesSigned a signers mt parties = .ok (a', used)) : AuthWf pre a' := by
+  unfold validateAllRequiredPartiesSigned at h
+  cases hr : associateRequired signers mt a (associateSigners signers parties) with
+  | error e => rw [hr] at h; simp at h
+  | ok r =>
+    obtain ⟨a1, ds⟩ := r
+    rw [hr] at h; simp only at h
+    have hw1 := associateRequired_wf hw hr
+    split at h
+    · simp at h; rw [← h.1]; exact hw1
+    · cases hl : associateRole signers mt a1 ds with
+      | error e => rw [hl] at h; simp at h
+      | ok r2 =>
+        obtain ⟨a2, ds2⟩ := r2
+        rw [hl] at h; simp at h
+        rw [← h.1]; exact associateRole_wf hw1 hl
+
 theorem effectiveSigners_sub (s : State) (signers : List Addr) : ∀ x ∈ effectiveSigners s signers, x ∈ signers := by
   intro x hx
   cases signers with
